@@ -34,13 +34,10 @@ pub fn drive_leader_request(log: &Arc<VLog>, n_new: u64, cap: u64, next: u64, co
     let h = ReplicationHandler::<VT>::new(1);
     let total = log.len();
     let last_before = total - n_new;
-    let mut new_entries: Vec<Entry> = Vec::new();
-    let mut k = 0;
-    while k < n_new {
-        let idx = last_before + 1 + k;
-        new_entries.push(Entry { index: idx, term: log.term_at(idx), payload: None });
-        k += 1;
-    }
+    let new_entries: Vec<Entry> = vec_exact(n_new as usize, |k| {
+        let idx = last_before + 1 + k as u64;
+        Entry { index: idx, term: log.term_at(idx), payload: None }
+    });
     let mut next_idx: HashMap<u32, u64> = HashMap::new();
     next_idx.insert(2, next);
     let data = ReplicationData { leader_last_index_before: last_before, current_term: term, commit_index: commit, peer_next_indices: next_idx };
@@ -70,6 +67,7 @@ fn contiguity_oracle(log: &Arc<VLog>, r: &LeaderReq) {
 #[kani::proof]
 #[kani::stub(std_catch_unwind, cu)]
 #[kani::stub(tracing::level_filters::LevelFilter::current, stub_level_off)]
+#[kani::stub(tracing::callsite::DefaultCallsite::register, stub_callsite_register)]
 #[kani::stub(std::time::Instant::now, fixed_std_now)]
 #[kani::stub(tokio::time::Instant::now, fixed_tokio_now)]
 #[kani::stub(std::hash::RandomState::new, stub_random_state_new)]
@@ -106,6 +104,7 @@ pub fn c08_leader_request_contiguous() {
 #[kani::proof]
 #[kani::stub(std_catch_unwind, cu)]
 #[kani::stub(tracing::level_filters::LevelFilter::current, stub_level_off)]
+#[kani::stub(tracing::callsite::DefaultCallsite::register, stub_callsite_register)]
 #[kani::stub(std::time::Instant::now, fixed_std_now)]
 #[kani::stub(tokio::time::Instant::now, fixed_tokio_now)]
 #[kani::stub(std::hash::RandomState::new, stub_random_state_new)]
@@ -129,6 +128,101 @@ pub fn c08_leader_request_capped_plus_new() {
     std::mem::forget(log);
 }
 
+/// C08 leader side at FULL WIDTH: the index arithmetic of `retrieve_to_be_synced_logs_for_peers` +
+/// `build_append_request` with a log model that records which range the leader reads instead of materialising it.
+/// The request is: prev = next-1, then the legacy range [lo..=hi] read from the log, then the new entries
+/// (which start at last_before+1).  It is contiguous iff the legacy range starts at next and, when new entries
+/// follow, ends at last_before.
+pub struct RangeOutcome {
+    pub read: Option<(u64, u64)>,
+    pub prev: u64,
+    pub n_entries: usize,
+    pub first_new: Option<u64>,
+}
+pub fn drive_leader_ranges(last_before: u64, next: u64, cap: u64, n_new: u64) -> RangeOutcome {
+    let log = Arc::new(VLog::new(0, [0; MAXLOG]));
+    log.i.m().record_only = true;
+    let h = ReplicationHandler::<VT>::new(1);
+    let new_entries: Vec<Entry> = vec_exact(n_new as usize, |k| Entry { index: last_before + 1 + k as u64, term: 7, payload: None });
+    let mut next_idx: HashMap<u32, u64> = HashMap::new();
+    next_idx.insert(2, next);
+    let data = ReplicationData { leader_last_index_before: last_before, current_term: 7, commit_index: 0, peer_next_indices: next_idx };
+    let mut per_peer = h.prepare_peer_entries(&new_entries, &data, cap, &log);
+    let (_pid, req) = h.build_append_request(&log, 2, &mut per_peer, &data);
+    let g = log.i.r();
+    let read = if g.nranges == 1 { Some(g.ranges[0]) } else { None };
+    assert!(g.nranges <= 1, "C08:more_than_one_legacy_range_read");
+    let o = RangeOutcome { read, prev: req.prev_log_index, n_entries: req.entries.len(), first_new: req.entries.first().map(|e| e.index) };
+    std::mem::forget(req);
+    std::mem::forget(per_peer);
+    std::mem::forget(data);
+    std::mem::forget(new_entries);
+    std::mem::forget(log);
+    o
+}
+fn range_oracle(o: &RangeOutcome, last_before: u64, next: u64, cap: u64, n_new: u64) {
+    assert!(o.prev == next - 1, "C08:prev_log_index_is_next_index_minus_one");
+    assert!(o.n_entries as u64 == n_new, "C08:new_entries_all_shipped_exactly_once");
+    if n_new > 0 {
+        assert!(o.first_new == Some(last_before + 1), "C08:new_entries_start_after_leader_last_index");
+    }
+    match o.read {
+        None => assert!(last_before < next, "C08:lagging_peer_gets_no_legacy_entries"),
+        Some((lo, hi)) => {
+            assert!(last_before >= next, "C08:legacy_range_read_for_up_to_date_peer");
+            assert!(lo == next, "C08:legacy_range_does_not_start_at_next_index");
+            assert!(hi >= lo && hi <= last_before, "C08:legacy_range_outside_leader_log");
+            assert!(hi - lo + 1 <= cap, "C08:legacy_range_exceeds_per_request_cap");
+            assert!(hi == last_before || hi - lo + 1 == cap, "C08:legacy_range_shorter_than_allowed");
+            if n_new > 0 {
+                // entries = legacy [lo..=hi] ++ new [last_before+1 ..]: consecutive iff hi == last_before
+                assert!(hi == last_before, "C08:gap_between_capped_legacy_entries_and_new_entries");
+            }
+        }
+    }
+}
+#[kani::proof]
+#[kani::stub(std_catch_unwind, cu)]
+#[kani::stub(tracing::level_filters::LevelFilter::current, stub_level_off)]
+#[kani::stub(tracing::callsite::DefaultCallsite::register, stub_callsite_register)]
+#[kani::stub(std::time::Instant::now, fixed_std_now)]
+#[kani::stub(tokio::time::Instant::now, fixed_tokio_now)]
+#[kani::stub(std::hash::RandomState::new, stub_random_state_new)]
+#[kani::unwind(2)]
+pub fn c08_leader_ranges_uncapped_or_heartbeat() {
+    let last_before: u64 = kani::any();
+    let next: u64 = kani::any();
+    let cap: u64 = kani::any();
+    let n_new: u64 = kani::any();
+    kani::assume(last_before < u64::MAX - 4 && next >= 1 && next <= last_before + 1 && cap >= 1 && n_new <= 2);
+    let capped = last_before >= next && last_before - next >= cap;
+    kani::assume(!(capped && n_new > 0)); // complementary region: c08_leader_ranges_capped_plus_new
+    let o = drive_leader_ranges(last_before, next, cap, n_new);
+    kani::cover!(o.read.is_some() && n_new == 2, "legacy range + two new entries");
+    kani::cover!(o.read.is_none() && n_new == 0, "pure heartbeat");
+    kani::cover!(capped, "capped legacy range, no new entries");
+    range_oracle(&o, last_before, next, cap, n_new);
+}
+#[kani::proof]
+#[kani::stub(std_catch_unwind, cu)]
+#[kani::stub(tracing::level_filters::LevelFilter::current, stub_level_off)]
+#[kani::stub(tracing::callsite::DefaultCallsite::register, stub_callsite_register)]
+#[kani::stub(std::time::Instant::now, fixed_std_now)]
+#[kani::stub(tokio::time::Instant::now, fixed_tokio_now)]
+#[kani::stub(std::hash::RandomState::new, stub_random_state_new)]
+#[kani::unwind(2)]
+pub fn c08_leader_ranges_capped_plus_new() {
+    let last_before: u64 = kani::any();
+    let next: u64 = kani::any();
+    let cap: u64 = kani::any();
+    let n_new: u64 = kani::any();
+    kani::assume(last_before < u64::MAX - 4 && next >= 1 && next <= last_before + 1 && cap >= 1 && n_new >= 1 && n_new <= 2);
+    kani::assume(last_before >= next && last_before - next >= cap);
+    let o = drive_leader_ranges(last_before, next, cap, n_new);
+    kani::cover!(cap == 100 && last_before == 250 && next == 100, "default cap, peer 150 entries behind");
+    range_oracle(&o, last_before, next, cap, n_new);
+}
+
 // ------------------------------------------------------------------------------------------
 // follower side
 // ------------------------------------------------------------------------------------------
@@ -139,13 +233,10 @@ pub fn any_request_from(leader: &VLog, maxent: usize) -> AppendEntriesRequest {
     kani::assume(prev <= leader.len());
     let n: u64 = kani::any();
     kani::assume(n as usize <= maxent && prev + n <= leader.len());
-    let mut entries = Vec::new();
-    let mut k = 0;
-    while k < n {
-        let idx = prev + 1 + k;
-        entries.push(Entry { index: idx, term: leader.term_at(idx), payload: None });
-        k += 1;
-    }
+    let entries = vec_exact(n as usize, |k| {
+        let idx = prev + 1 + k as u64;
+        Entry { index: idx, term: leader.term_at(idx), payload: None }
+    });
     let lc: u64 = kani::any();
     kani::assume(lc <= leader.len());
     AppendEntriesRequest { term: kani::any(), leader_id: 9, prev_log_index: prev, prev_log_term: leader.term_at(prev), entries, leader_commit_index: lc }
@@ -199,6 +290,7 @@ pub fn longest_agreeing_prefix(f: &VLog, l: &VLog) -> u64 {
 #[kani::proof]
 #[kani::stub(std_catch_unwind, cu)]
 #[kani::stub(tracing::level_filters::LevelFilter::current, stub_level_off)]
+#[kani::stub(tracing::callsite::DefaultCallsite::register, stub_callsite_register)]
 #[kani::stub(std::time::Instant::now, fixed_std_now)]
 #[kani::stub(tokio::time::Instant::now, fixed_tokio_now)]
 #[kani::unwind(2)]
@@ -256,6 +348,7 @@ pub fn c07_follower_commit_rule() {
 #[kani::proof]
 #[kani::stub(std_catch_unwind, cu)]
 #[kani::stub(tracing::level_filters::LevelFilter::current, stub_level_off)]
+#[kani::stub(tracing::callsite::DefaultCallsite::register, stub_callsite_register)]
 #[kani::stub(std::time::Instant::now, fixed_std_now)]
 #[kani::stub(tokio::time::Instant::now, fixed_tokio_now)]
 #[kani::unwind(2)]
